@@ -821,6 +821,7 @@ def oracle_cutoffs(src, ops, tail):
     always, never = {}, set()        # node rank -> changed_at frozen at; never set
     fncut = set()                    # top-level nodes that currently have a function cutoff
     given_cutoff = set()             # top-level nodes that were ever given a cutoff explicitly
+    unnec_since = set()              # map_ref nodes that were unnecessary at some point since they last ran
     plain, nondefault = {}, set()    # top-level nodes made by an ordinary combinator; those ever given a cutoff
     computed = {}                    # node rank -> value it had at the end of the stabilise that last recomputed it
     var_rank, written = [], set()    # variable index -> rank of its watch node; variables written since the last stabilise
@@ -918,6 +919,10 @@ def oracle_cutoffs(src, ops, tail):
                 if after["kind"] == "MapRef" and _mapref_input_has_other_cutoff(op.nodes, r, given_cutoff):
                     continue     # an input whose own cutoff suppressed a different value changed silently: the map_ref's
                                  # previous value is then not the one it had when it last ran
+                if after["kind"] == "MapRef" and r in unnec_since:
+                    return (f"op {op.idx}: node {r} is a map_ref that became necessary again after an unobserved period: it was "
+                            f"stamped as changed (round {t}) although its value {after['val']} is equal to the one it had when it "
+                            f"last ran")
                 if after["kind"] == "MapRef" and _mapref_over_map_with_old(op.nodes, r):
                     return (f"op {op.idx}: node {r} is a map_ref whose input is a map_with_old node: it was stamped as changed "
                             f"(round {t}) although its value {after['val']} is equal to the previous one")
@@ -926,6 +931,7 @@ def oracle_cutoffs(src, ops, tail):
             for r, n in op.nodes.items():
                 if n is not None and n["valid"] and n["rec"] == t:
                     computed[r] = n["val"]      # a map_ref's value reads through to its input: remember what it was when it last ran
+                    unnec_since.discard(r)
             # function cutoffs see (old, new)
             evs = op.events
             for i, e in enumerate(evs):
@@ -956,6 +962,9 @@ def oracle_cutoffs(src, ops, tail):
         if word == "stabilise" and op.result.startswith("ok"):
             written = set()
         if op.nodes:
+            for r, n in op.nodes.items():
+                if n is not None and n["kind"] == "MapRef" and not necessary(n):
+                    unnec_since.add(r)
             prev = op
     return None
 
